@@ -695,6 +695,8 @@ class World:
     def new_error(self, p, x, ch, pick):
         eo = pick('errobj', ['fresh', 'reused'], [30, 1])
         e = self.last_err.get((p, x)) if eo == 'reused' else None
+        if e is not None and set(getattr(e, 'raising_methods', None) or ()) - {f'{self.mname[p]}.read_{p}'}:
+            e = None        # (an object that went through a nested read carries foreign context: not reused)
         if e is None:
             e = self.errs[x]()
             ch['errobj'] = 'fresh'
@@ -765,8 +767,8 @@ class World:
                 exc = e
         elif a == 'Write':
             dt = m.parameters[p].datatype
-            via = pick('via', ['direct', 'request'], [3, 1])
-            if self.dts[p] in ('array', 'nested') or p in self.hidden:
+            via = pick('via', ['direct', 'request', 'init'], [5, 2, 1])
+            if via == 'request' and (self.dts[p] in ('array', 'nested') or p in self.hidden):
                 via = ch['via'] = 'direct'   # ArrayOf.validate(previous=..) truncates (C01 finding): stay independent
             if x == y:
                 ret = pick('ret', ['none', 'canon', 'value'], [3, 1, 1])
@@ -782,6 +784,10 @@ class World:
             try:
                 if via == 'direct':
                     getattr(m, 'write_' + p)(r)
+                elif via == 'init':         # the start-up path: configured values are written by writeInitParams
+                    m.writeDict.clear()     # (only this parameter: start values of others are not of interest)
+                    m.writeDict[p] = r
+                    m.writeInitParams()
                 else:
                     ch['rep'] = 'canon'    # the dispatcher imports and validates before calling write_*
                     wire = dt.export_value(dt(self.cat[self.dts[p]][1][x][0]))
@@ -805,7 +811,10 @@ class World:
                 exc = e
         elif a == 'AnnounceErr':
             try:
-                m.announceUpdate(p, None, self.errs[x]())
+                if pick('withvalue', [False, True]):     # (the way registerCallbacks(autoupdate=..) forwards errors)
+                    m.announceUpdate(p, self.raw(p, self.avail[p][0], rnd, 'r')[0], self.errs[x]())
+                else:
+                    m.announceUpdate(p, None, self.errs[x]())
             except Exception as e:
                 exc = e
         elif a == 'AnnounceAt':
@@ -819,8 +828,8 @@ class World:
                 exc = e
         elif a == 'Untouched':
             from frappy.modulebase import Done
-            options = {'rw': ['ReadDone', 'WriteDone', 'WriteRaise', 'WriteInvalid', 'ChangeRaise'],
-                       'noread': ['ReadCached', 'WriteRaise', 'WriteInvalid'],
+            options = {'rw': ['ReadDone', 'WriteDone', 'WriteRaise', 'WriteInvalid', 'ChangeRaise', 'InitWriteRaise'],
+                       'noread': ['ReadCached', 'WriteRaise', 'WriteInvalid', 'InitWriteRaise'],
                        'const': ['ReadConst', 'ReadCached', 'ChangeConst']}[self.kind[p]]
             if p in self.hidden:
                 options = [o for o in options if o not in ('ChangeRaise', 'ReadConst', 'ChangeConst')]
@@ -845,6 +854,11 @@ class World:
                         getattr(m, 'write_' + p)(anyval)
                     else:
                         disp.handle_request(self.reqconn, ('change', rspec(p), dt.export_value(dt(anyval))))
+                elif var == 'InitWriteRaise':       # a failing start-up write is logged, not raised
+                    self.script[(me, 'w', p)] = ('raise', self.errs[rnd.choice(sorted(self.errs))]())
+                    m.writeDict.clear()
+                    m.writeDict[p] = anyval
+                    m.writeInitParams()
                 elif var == 'WriteInvalid':
                     expect_exc = True
                     getattr(m, 'write_' + p)(self.cat[self.dts[p]][3][rnd.choice(['i1', 'i2'])])
